@@ -105,3 +105,14 @@ package core
 //@   ensures[reset@C03] m != nil ==> (m.Body == nil && !m.Done && len(m.RspBody) == 0 && m.Owner == nil && m.FragDoneNumber == 0 && m.prev == nil && m.next == nil)
 //@   ensures[others.same] forall l *MsgQueue :: (l != nil && old(mwf(l)) && old(mnotin(l, m))) ==> mqsame(l)
 //@   ensures[others.wf] forall l *MsgQueue :: (l != nil && old(mwf(l)) && old(mnotin(l, m))) ==> mwf(l)
+
+// ---- redirects (C13): the node and slot named by "-MOVED <slot> <addr>\r\n" / "-ASK <slot> <addr>\r\n" ----
+//@ use strs
+//@ define redirtext(f, i) = str(f.RspBody[i : len(f.RspBody) - 2])
+
+//@ func Frag.parseMovedOrAsk
+//@   props C13
+//@   requires f != nil
+//@   ensures[moved.addr@C13] (f.Type == codec.RspMoved && len(f.RspBody) >= 10 && nfields(redirtext(f, 7), " ") >= 2) ==> addr == fieldof(redirtext(f, 7), " ", 1)
+//@   ensures[ask.addr@C13] (f.Type == codec.RspAsk && len(f.RspBody) >= 10 && nfields(redirtext(f, 5), " ") >= 2) ==> addr == fieldof(redirtext(f, 5), " ", 1)
+//@   ensures[short@C13] (len(f.RspBody) < 10 || (f.Type != codec.RspMoved && f.Type != codec.RspAsk)) ==> addr == ""
